@@ -33,6 +33,33 @@ Proof. exact display_roundtrip. Qed.
 Theorem C09_argument_no_at : forall e, wfe e -> no_at (display_expr (conv e)) = true.
 Proof. exact display_no_at. Qed.
 
+(** ... and as an OPERAND of an instruction line (document::instruction_op: index forms, then registers, then
+    expressions), in any non-gluing context: registers r0..r31, the index forms X / X+ / -X / X+expr (any of X, Y, Z), and
+    every compound expression read back as exactly the operand the caller wrote.  (An identifier or number argument is an
+    expression operand as well, provided its text is not itself a register or index name - which the parser guarantees
+    for whatever it parsed as an expression: hypotheses of [C09_expression_operand].) *)
+Require Import AvraV.Model.Lines.
+Theorem C09_register_operand : forall n rest, (n < 32)%N -> neutral_rest rest ->
+  instruction_op (display_iop (OR8 n) ++ rest) = Some (OR8 n, rest).
+Proof. exact register_roundtrip. Qed.
+Theorem C09_index_operands : forall r e rest, wfe e -> neutral_rest rest ->
+  instruction_op (display_iop (OIndex (INone r)) ++ rest) = Some (OIndex (INone r), rest) /\
+  instruction_op (display_iop (OIndex (IPreDec r)) ++ rest) = Some (OIndex (IPreDec r), rest) /\
+  (expr_rule rest = None -> instruction_op (display_iop (OIndex (IPostInc r)) ++ rest) = Some (OIndex (IPostInc r), rest)) /\
+  instruction_op (display_iop (OIndex (IPostIncE r (conv e))) ++ rest) = Some (OIndex (IPostIncE r (conv e)), rest).
+Proof.
+  intros r e rest Hw Hn. split; [apply index_none_roundtrip; exact Hn|]. split; [apply index_predec_roundtrip|].
+  split; [apply index_postinc_roundtrip | apply index_postinc_expr_roundtrip; assumption].
+Qed.
+Theorem C09_expression_operand : forall e rest, wfe e -> neutral_rest rest ->
+  index_ops (display_expr (conv e) ++ rest) = None -> Lines.reg8 (display_expr (conv e) ++ rest) = None ->
+  instruction_op (display_iop (OE (conv e)) ++ rest) = Some (OE (conv e), rest).
+Proof. exact expr_operand_roundtrip. Qed.
+Theorem C09_compound_operand : forall e rest, wfe e -> neutral_rest rest ->
+  match e with EB _ _ _ | EU _ _ => instruction_op (display_iop (OE (conv e)) ++ rest) = Some (OE (conv e), rest) | _ => True end.
+Proof. exact compound_operand_roundtrip. Qed.
+Print Assumptions C09_index_operands.
+
 (** (3) NAMES: a call finds the macro whatever the letter case (both sides are lower-cased), and calling
     an undefined macro is an error naming the line of the call *)
 Theorem C09_case : forall n n', lower n = lower n' -> operation_of_name n = operation_of_name n'.
